@@ -347,3 +347,49 @@ theorem fisher_view_bound (N : Nat) (hN : 0 < N) (ma : View ℝ) (maS : List ℝ
   rw [Eft.outAfter_eq N hN ma maS hR] at h
   exact Bounds.fisher_bound N maS xs v (by simpa using h)
 end SF.C07
+
+/-! ### Min ≤ Alma ≤ Max over the same window (ℝ: the Gaussian weights are positive) -/
+namespace SF.C07.Real
+open SF SF.Spec
+
+/-- **Alma lies between the minimum and the maximum of its window**, every N ≥ 1, every σ, offset, every history:
+any bounds lo ≤ x ≤ hi valid for the (at most N) values in the window are valid for Alma's output -/
+theorem alma_between_min_max (N : Nat) (hN : 0 < N) (sigma offset : ℝ) (xs : List ℝ) (lo hi : ℝ)
+    (hlo : ∀ x ∈ lastN N xs, lo ≤ x) (hhi : ∀ x ∈ lastN N xs, x ≤ hi) (v : ℝ)
+    (h : Spec.alma N sigma offset xs = some v) : lo ≤ v ∧ v ≤ hi := by
+  unfold Spec.alma at h
+  split at h
+  · simp at h
+  · rename_i hne
+    simp only [Option.some.injEq] at h
+    set l := lastN N xs with hl
+    set hfun : Nat → ℝ := fun j => gauss (offset * (nat N + nat 1)) (nat N / sigma) (min (xs.length - l.length + j) (N - 1)) with hh
+    have hz := Alma.zipIdx_map_eq hfun l 0
+    simp only [hh] at hz
+    set gs := (List.range' 0 l.length).map hfun with hgs
+    have hlne : l ≠ [] := by
+      have hxne : xs ≠ [] := by cases xs <;> simp_all
+      have : l.length = min N xs.length := lastN_length N xs
+      have hxl : 0 < xs.length := List.length_pos_of_ne_nil hxne
+      intro hnil; rw [hnil] at this; simp at this; omega
+    have hlen : gs.length = l.length := by simp [hgs]
+    have hpos : Alma.Pos gs := by
+      intro g hg
+      simp only [hgs, List.mem_map] at hg
+      obtain ⟨i, _, rfl⟩ := hg
+      exact C04.Real.gauss_pos _ _ _
+    have hgne : gs ≠ [] := by
+      intro hnil; rw [hnil] at hlen; simp at hlen; exact hlne (List.eq_nil_of_length_eq_zero hlen.symm)
+    have hv : v = Alma.dot gs l / sumL gs := by
+      rw [← h, hz, Alma.dot_eq, Alma.sum_fst_zip gs l hlen]
+    rw [hv]
+    exact Alma.wmean_interval gs l hlen hpos hgne lo hi hlo hhi
+
+/-- … and so for the view itself (state machine = spec by C04 `alma_eq`) -/
+theorem alma_view_between_min_max (N : Nat) (hN : 0 < N) (sigma offset : ℝ) (xs : List ℝ) (lo hi : ℝ)
+    (hlo : ∀ x ∈ lastN N xs, lo ≤ x) (hhi : ∀ x ∈ lastN N xs, x ≤ hi) (v : ℝ)
+    (h : (almaCore (α := ℝ) N sigma offset).outAfter xs = .ok (some v)) : lo ≤ v ∧ v ≤ hi := by
+  rw [C04.alma_eq N hN] at h
+  exact alma_between_min_max N hN sigma offset xs lo hi hlo hhi v (by simpa using h)
+
+end SF.C07.Real
